@@ -54,6 +54,46 @@ func simLockWait(mu *sync.RWMutex, write bool) {
 	}
 }
 
+// registryMutex wraps the mutex that guards the package-level
+// registry so that every acquisition and release, wherever it
+// is written, is a scheduling point of the simulation: the
+// harness is told before the real lock is taken (it parks the
+// caller while the lock is not free) and after it is released.
+type registryMutex struct {
+	mu sync.RWMutex
+}
+
+func (m *registryMutex) Lock() {
+	simLockWait(&m.mu, true)
+	m.mu.Lock()
+}
+
+func (m *registryMutex) Unlock() {
+	m.mu.Unlock()
+	simYield("lock.released", nil)
+}
+
+func (m *registryMutex) RLock() {
+	simLockWait(&m.mu, false)
+	m.mu.RLock()
+}
+
+func (m *registryMutex) RUnlock() {
+	m.mu.RUnlock()
+	simYield("lock.released", nil)
+}
+
+func (m *registryMutex) TryLock() bool { return m.mu.TryLock() }
+
+func (m *registryMutex) TryRLock() bool { return m.mu.TryRLock() }
+
+func (m *registryMutex) RLocker() sync.Locker { return (*registryRLocker)(m) }
+
+type registryRLocker registryMutex
+
+func (r *registryRLocker) Lock()   { (*registryMutex)(r).RLock() }
+func (r *registryRLocker) Unlock() { (*registryMutex)(r).RUnlock() }
+
 // VerifRoot returns the root of an Expr's syntax tree.
 func VerifRoot(e *Expr) jparse.Node {
 	return e.node
